@@ -1,12 +1,16 @@
 #!/bin/bash
-# runs every seeded mutant against the check of the property it breaks; writes /verif/seeded/RESULTS.txt
+# runs every seeded mutant against the check of the property it breaks (5 at a time); writes /verif/seeded/RESULTS.txt
 OUT=/verif/seeded/RESULTS.txt
-: > $OUT.tmp
-for d in /verif/seeded/C*-*; do
+T=$(mktemp -d /tmp/mutres-XXXX)
+one() {
+  d=$1; T=$2
   m=$(basename $d); p=${m%-*}
   r=$(/verif/lib/try_mutant.sh $d $p 2>&1)
   conf=$(echo "$r" | grep -c "MUTANT-NOT-CONFIRMED\|PATCH-DOES-NOT-APPLY")
   line=$(echo "$r" | grep "^check $p rc=")
-  echo "$m | confirmed=$((1-conf)) | ${line:-not run} | $(echo "$r" | grep "^demo on" | head -1)" >> $OUT.tmp
-done
-mv $OUT.tmp $OUT
+  echo "$m | confirmed=$((1-conf)) | ${line:-not run} | $(echo "$r" | grep "^demo on" | head -1)" > $T/$m
+}
+export -f one
+ls -d /verif/seeded/C*-* | xargs -P 5 -I{} bash -c 'one {} '$T
+cat $(ls $T/* | sort) > $OUT
+rm -rf $T
